@@ -237,7 +237,7 @@ def run_property(prop, tier, seed, impl="py", only=None):
             r = native_call(["replay", h.id, path])
             return job, path, r
         if kind == "witness":
-            path = write_replay(prop + "-witness", h.id, cname, "witness", res["witness"], {}, h.idealised)
+            path = write_replay(prop + "-witness%d" % os.getpid(), h.id, cname, "witness", res["witness"], {}, h.idealised)
             r = native_call(["replay", h.id, path])
             try:
                 os.unlink(path)
@@ -341,6 +341,19 @@ def run_property(prop, tier, seed, impl="py", only=None):
                                  "exhaustive": bool(r.get("exhaustive")), "bound": T["standin"],
                                  "reason": (res["unsupported"][:1] or ["solver returned unknown"])[0]})
             if r["fails"]:
+                # known findings are honoured on the stand-in route as well: resample outside the listed regions
+                regs = sorted({k["region"] for k in known if k["harness"] == h.id and k.get("region")})
+                if regs:
+                    case_json = json.dumps({k: list(v) for k, v in case.items()})
+                    r2 = native_call(["sample", h.id, str(T["standin"]), str(seed), case_json, json.dumps(regs)])
+                    if r2.get("status") != "error" and not r2.get("fails") and r2.get("pass", 0) > 0:
+                        for k in [k for k in known if k["harness"] == h.id and k.get("region")]:
+                            rep.known.append(k)
+                            rep.out("KNOWN-FINDING: property=%s %s [%s; bounded stand-in of %s passes on %d sampled "
+                                    "inputs outside the listed region(s)]" % (prop, k["what"], k["id"], h.id, r2["pass"]))
+                        continue
+                    if r2.get("fails"):
+                        r = r2
                 f = r["fails"][0]
                 p2 = write_replay(prop, h.id, cname, "bounded-standin", f["inputs"],
                                   {"note": "found by the bounded stand-in", "detail": f["detail"]}, h.idealised)
